@@ -80,18 +80,19 @@ Fixpoint run_bucket (cap rate : N) (z : N) (evs : list (N * N)) : N * N :=
 
 (* one source and the other sources that hash into one of its two buckets *)
 Inductive lev :=
-| Mine (t n : N)           (* a refused query of this source, cost n *)
+| Mine (t n b : N)         (* a refused query of this source: cost n, reply of b octets *)
 | Other1 (t n : N)         (* another source charging this source's first bucket *)
 | Other2 (t n : N).        (* ... its second bucket *)
-Definition lev_time (e : lev) : N := match e with Mine t _ | Other1 t _ | Other2 t _ => t end.
+Definition lev_time (e : lev) : N := match e with Mine t _ _ => t | Other1 t _ | Other2 t _ => t end.
 
-(* tokens granted to this source, final state *)
-Fixpoint run_limiter (cap rate : N) (st : N * N) (evs : list lev) : N * (N * N) :=
+(* tokens granted to this source, octets sent to it, final state *)
+Fixpoint run_limiter (cap rate : N) (st : N * N) (evs : list lev) : N * N * (N * N) :=
   match evs with
-  | [] => (0, st)
-  | Mine t n :: evs' =>
+  | [] => (0, 0, st)
+  | Mine t n b :: evs' =>
     match lim_check cap rate st t n with
-    | Ok (true, st') => match run_limiter cap rate st' evs' with (g, sf) => (n + g, sf) end
+    | Ok (true, st') =>
+      match run_limiter cap rate st' evs' with (g, s, sf) => (n + g, b + s, sf) end
     | Ok (false, st') => run_limiter cap rate st' evs'
     | _ => run_limiter cap rate st evs'
     end
